@@ -173,6 +173,12 @@ func tableOf(class string) []byte {
 	return []byte("known")
 }
 
+// unknownTable: names of tables that do not exist - plain ones and ones that LOOK like the existing table "known"
+// through path elements (none of them is a table)
+func unknownTable(n int) []byte {
+	return []byte([]string{"no-such-table", "known/", "./known", "known/.", "x/../known", "/known", "known//", "KNOWN", "known\x00"}[n%9])
+}
+
 func contentOf(kvc regattapb.KVClient, tc regattapb.TablesClient) string {
 	ctx, cancel := context.WithTimeout(context.Background(), 10*time.Second)
 	defer cancel()
@@ -219,6 +225,12 @@ func apiValidate(tr *tracer.T, cases [][]byte, only int) {
 		var r apiReq
 		if err := json.Unmarshal(line, &r); err != nil {
 			die("bad case: %v", err)
+		}
+		tableOf := func(class string) []byte {
+			if class == "unknown" {
+				return unknownTable(n)
+			}
+			return tableOf(class)
 		}
 		var raw map[string]any
 		_ = json.Unmarshal(line, &raw)
@@ -291,7 +303,7 @@ func apiValidate(tr *tracer.T, cases [][]byte, only int) {
 				op = del(keyOf("over", n))
 			case "range_ok":
 				op = &regattapb.RequestOp{Request: &regattapb.RequestOp_RequestRange{RequestRange: &regattapb.RequestOp_Range{Key: keyOf("ok", n)}}}
-			case "emptyoneof":
+			case "emptyoneof", "emptyoneof_alone", "emptyoneof_after_range":
 				op = &regattapb.RequestOp{}
 			case "range_neglimit":
 				op = &regattapb.RequestOp{Request: &regattapb.RequestOp_RequestRange{RequestRange: &regattapb.RequestOp_Range{Key: []byte{0}, RangeEnd: []byte{0}, Limit: -1}}}
@@ -303,7 +315,18 @@ func apiValidate(tr *tracer.T, cases [][]byte, only int) {
 			marker := put([]byte("txn-marker"), []byte("m")) // makes the transaction a write even if op is a read
 			t := &regattapb.TxnRequest{Table: tableOf(r.Table)}
 			// no predicate: the success branch is the executed one
-			if strings.HasPrefix(r.Nested, "range_") && n%2 == 0 {
+			if r.Nested == "emptyoneof_alone" || r.Nested == "emptyoneof_after_range" {
+				// a transaction that writes nothing, with an operation that names nothing, in the executed or the other branch
+				ops := []*regattapb.RequestOp{op}
+				if r.Nested == "emptyoneof_after_range" {
+					ops = []*regattapb.RequestOp{{Request: &regattapb.RequestOp_RequestRange{RequestRange: &regattapb.RequestOp_Range{Key: keyOf("ok", n)}}}, op}
+				}
+				if r.Branch == "executed" {
+					t.Success = ops
+				} else {
+					t.Failure = ops
+				}
+			} else if strings.HasPrefix(r.Nested, "range_") && n%2 == 0 {
 				t.Success = []*regattapb.RequestOp{op} // a read-only transaction (served outside the log)
 			} else if r.Branch == "executed" {
 				t.Success = []*regattapb.RequestOp{marker, op}
@@ -316,7 +339,7 @@ func apiValidate(tr *tracer.T, cases [][]byte, only int) {
 			name := map[string]string{"known": "known", "unknown": fmt.Sprintf("new-table-%d", n), "empty": ""}[r.Table]
 			_, err = tc.Create(ctx, &regattapb.CreateTableRequest{Name: name})
 		case "TablesDelete":
-			name := map[string]string{"known": fmt.Sprintf("victim-%d", n), "unknown": "no-such-table", "empty": ""}[r.Table]
+			name := map[string]string{"known": fmt.Sprintf("victim-%d", n), "unknown": string(unknownTable(n)), "empty": ""}[r.Table]
 			if r.Table == "known" && r.Node == "leader" {
 				if _, e := tc.Create(ctx, &regattapb.CreateTableRequest{Name: name}); e != nil {
 					die("create victim: %v", e)
